@@ -39,12 +39,14 @@ class Ctx:
         # a lost text or a stalled key exchange in its (attacked) runs is its violation too
         self.also_props = {"C06": {"C04", "C07"}}.get(pid, set())
         # projected fields that are visible through the public API for this property
-        self.obs_state = {"C01": {"sess", "peer", "ms", "rev"}, "C18": {"ms"}, "C15": {"ttag", "otag"},
+        self.obs_state = {"C01": {"sess", "peer", "ms", "rev"}, "C15": {"ttag", "otag"},
                           "C07": {"ms", "sess", "peer"}, "C03": {"ms"}, "C16": {"ver"},
                           # the state the property itself speaks about: what is retained (C08: texts and exponents;
                           # C19: everything that grows), the SMP state machine (C11, C12), the fragment context (C14)
                           "C08": {"rsq", "pend", "cur", "prev", "ax"}, "C19": {"rsq", "pend", "ctrs", "macs", "frag"},
-                          "C11": {"smp"}, "C12": {"smp"}, "C14": {"frag"}}.get(pid, set())
+                          "C11": {"smp"}, "C12": {"smp"}, "C14": {"frag"},
+                          # the replay counters (C05), the MAC keys recorded / awaiting disclosure (C09), the resend queue (C18)
+                          "C05": {"ctrs"}, "C09": {"macs", "pend"}, "C18": {"ms", "rsq", "rsf"}}.get(pid, set())
 
     def quick(self):
         return self.tier != "thorough"
